@@ -839,11 +839,11 @@ def overlap_checks(ctx, a, b, label, bound=True):
                                    'guarded': float(ga), 'plain': vals[nm]})
     m = max(vals['ab'], vals['ba'])
     if abs(m - 4 * math.pi) <= 1e-6:
-        # recorded finding F20: spherical_geometry returned the intersection polygon inverted and the
-        # code reports the area of its complement (about 4 pi)
+        # (F20, fixed: spherical_geometry can return the intersection polygon inverted; the code used
+        # to report the area of its complement, about 4 pi)
         ctx.oracle_fail(case, {'what': 'intersection_area is about 4 pi: the area of the complement of the '
                                        'intersection is reported', 'ab': vals['ab'], 'ba': vals['ba'],
-                               'footprints_sr': [area_of(a), area_of(b)], 'finding': 'F20'})
+                               'footprints_sr': [area_of(a), area_of(b)]})
         return None
     if abs(vals['ab'] - vals['ba']) > AREA_RTOL * m + AREA_ATOL:
         ctx.oracle_fail(case, {'what': 'intersection_area is not symmetric', 'ab': vals['ab'], 'ba': vals['ba']})
@@ -1058,7 +1058,7 @@ def probes(ctx, rec, lines, pending):
         ctx.note('finding F19 no longer reproduces on its witness')
 
 
-    # F20 (open): inverted intersection polygon -> area of the complement
+    # F20 (fixed): inverted intersection polygon -> area of the complement; regression probe
     def mk2(crpix, xs, ys):
         ww = mkwcs(0.0, 85.0, 29.013683365473632, 1e-5, crpix, flip=True)
         o = WCSImageCatalog(Table([xs, ys], names=('x', 'y')), FITSWCSCorrector(ww))
@@ -1069,7 +1069,7 @@ def probes(ctx, rec, lines, pending):
     nfail = len(ctx.oracle_failures)
     overlap_checks(ctx, a, c, 'probe-F20')
     if len(ctx.oracle_failures) == nfail:
-        ctx.note('finding F20 no longer reproduces on its witness')
+        ctx.branch('probe:F20:regression-ok')
 
 
 # ---------------------------------------------------------------------------
